@@ -12,6 +12,7 @@
     - wire cases ([wcase]): a message name, a value tree, and the bytes both generated
       families produced for it (and for each other's output). *)
 From Irismod Require Export Proto.Desc Proto.Wire Proto.WireEnv Gen.Descriptors.
+From Coq Require Export Uint63.
 Open Scope N_scope.
 
 Definition seqb := String.eqb.
@@ -118,10 +119,10 @@ Record wcase := mkW {
   w_mode : N;           (* 0 populated, 1 absent non-nullable, 2 map with several entries, 3 kind mismatch *)
   w_msg : string;
   w_val : value;
-  w_pb : string;        (* hex: protobuf-go (api/ family) marshalled the value *)
-  w_gb : string;        (* hex: gogoproto family decoded [w_pb] and marshalled it *)
-  w_g2b : string;       (* hex: gogoproto family decoded [w_gb] and marshalled again *)
-  w_p2b : string;       (* hex: api/ family decoded [w_gb] and marshalled it *)
+  w_pb : list N;        (* protobuf-go (api/ family) marshalled the value *)
+  w_gb : list N;        (* gogoproto family decoded [w_pb] and marshalled it *)
+  w_g2b : list N;       (* gogoproto family decoded [w_gb] and marshalled again *)
+  w_p2b : list N;       (* api/ family decoded [w_gb] and marshalled it *)
   w_eqp : bool;         (* api/ family: decoded [w_gb] equals the original message (proto.Equal) *)
   w_unstable : bool;    (* repeated marshalling by the gogoproto family gave different bytes *)
   w_err : N             (* bit mask of build / marshal / unmarshal errors *)
@@ -129,9 +130,79 @@ Record wcase := mkW {
 
 Definition VB (hex : string) : value := VBytes (unhex_bytes hex).
 
+(** byte strings as the driver writes them: [len] bytes, in big-endian chunks of 7 bytes held in
+    primitive 63-bit integers (the last chunk holds the remaining [len mod 7] bytes).  A string
+    literal costs the type checker ~20 term nodes per byte, a chunk 2 nodes per 7 bytes. *)
+Fixpoint bits_to_N (k : nat) (i : int) : N :=
+  match k with
+  | O => 0
+  | S k' => let r := bits_to_N k' (Uint63.lsr i 1%uint63) in
+            if Uint63.is_even i then N.double r else N.succ_double r
+  end.
+
+(** the [k] low bytes of [c], most significant first, in front of [acc] *)
+Fixpoint be_bytes (k : nat) (c : int) (acc : list N) : list N :=
+  match k with
+  | O => acc
+  | S k' => be_bytes k' (Uint63.lsr c 8%uint63) (bits_to_N 8 (Uint63.land c 255%uint63) :: acc)
+  end.
+
+Fixpoint chunk_bytes (len : N) (cs : list int) : list N :=
+  match cs with
+  | [] => []
+  | c :: r =>
+      let k := N.min 7 len in
+      be_bytes (N.to_nat k) c (chunk_bytes (len - k) r)
+  end.
+
+Definition BY (len : N) (cs : list int) : list N := chunk_bytes len cs.
+Arguments BY len%N cs%uint63.
+Definition VY (len : N) (cs : list int) : value := VBytes (BY len cs).
+Arguments VY len%N cs%uint63.
+
 Definition penv : env := wire_env false (pulsar_files ++ pulsar_deps).
 Definition genv : env := wire_env true (gogo_files ++ gogo_deps).
+(** the api/ family's descriptors read the way the gogoproto code generator reads them (the
+    customtype option is carried by both families' descriptors) *)
+Definition penv_g : env := wire_env true (pulsar_files ++ pulsar_deps).
 Definition FUEL : nat := 40.
+
+(** some map field of the value (at any depth) has two or more entries *)
+Definition is_map_field (e : env) (m : wmsg) (num : N) : bool :=
+  match find_wf num (wm_fields m) with
+  | Some wf => match wf_kind wf with
+               | WMsg nm => match lookup nm e with Some m' => wm_entry m' | None => false end
+               | _ => false
+               end
+  | None => false
+  end.
+
+Fixpoint multi_map (fuel : nat) (e : env) (k : wkind) (v : value) : bool :=
+  match fuel with
+  | O => false
+  | S f =>
+      match k, v with
+      | WMsg name, VMsg fs =>
+          match lookup name e with
+          | None => false
+          | Some m =>
+              (fix go (l : list (N * value)) : bool :=
+                 match l with
+                 | (n1, _) :: r =>
+                     match r with
+                     | (n2, _) :: _ => ((n1 =? n2) && is_map_field e m n1) || go r
+                     | [] => false
+                     end
+                 | [] => false
+                 end) fs
+              || existsb (fun p => match find_wf (fst p) (wm_fields m) with
+                                   | Some wf => multi_map f e (wf_kind wf) (snd p)
+                                   | None => false
+                                   end) fs
+          end
+      | _, _ => false
+      end
+  end.
 
 Fixpoint bytes_eqb (a b : list N) : bool :=
   match a, b with
@@ -169,23 +240,25 @@ Definition model_gogo (name : string) (v : value) : option (list N) :=
     same bytes, each re-encodes the other's bytes to the same bytes, the decoded message is
     equal, no error, stable output *)
 Definition holds_C20 (c : wcase) : bool :=
-  let pb := unhex_bytes (w_pb c) in
-  let gb := unhex_bytes (w_gb c) in
-  (w_err c =? 0) && bytes_eqb pb gb && bytes_eqb (unhex_bytes (w_g2b c)) pb
-  && bytes_eqb (unhex_bytes (w_p2b c)) gb && w_eqp c && negb (w_unstable c).
+  let pb := w_pb c in
+  let gb := w_gb c in
+  (w_err c =? 0) && bytes_eqb pb gb && bytes_eqb (w_g2b c) pb
+  && bytes_eqb (w_p2b c) gb && w_eqp c && negb (w_unstable c).
 
 Definition check_wire (c : wcase) : Z * Z * Z :=
   let name := w_msg c in
   let v := w_val c in
-  let pb := unhex_bytes (w_pb c) in
-  let gb := unhex_bytes (w_gb c) in
-  let g2b := unhex_bytes (w_g2b c) in
-  let p2b := unhex_bytes (w_p2b c) in
+  let pb := w_pb c in
+  let gb := w_gb c in
+  let g2b := w_g2b c in
+  let p2b := w_p2b c in
   let holds := holds_C20 c in
   if w_mode c =? 3 then
     (* the value is typed as the gogoproto family sees the message (numeral in place of a message) *)
     let corr := obytes_eqb (encode genv name v) gb && bytes_eqb g2b gb in
-    let known := corr && negb (typedb penv (WMsg name) v) in
+    (* known only when the SOLE difference is the customtype reading of the field: the api/
+       family's descriptors, read as the gogoproto generator reads them, give the same bytes *)
+    let known := corr && obytes_eqb (encode penv_g name v) gb && negb (typedb penv (WMsg name) v) in
     ((if corr then -1 else 0), (if holds then -1 else 0), (if known then 4 else 2))%Z
   else
     let differ := negb (bytes_eqb pb gb) in
@@ -202,6 +275,7 @@ Definition check_wire (c : wcase) : Z * Z * Z :=
     let code :=
       if holds then 0%Z
       else if corr && differ && negb (w_unstable c) then 1%Z        (* only absent non-nullable fields differ *)
-      else if corr && negb differ && w_unstable c then 3%Z          (* only the order of map entries differs *)
+      else if corr && negb differ && w_unstable c && multi_map FUEL genv (WMsg name) v
+           then 3%Z                                                   (* only the order of map entries differs *)
       else 2%Z in
     ((if corr then -1 else 0), (if holds then -1 else 0), code)%Z.
